@@ -181,7 +181,15 @@ func runShard(ops []Op, wo WorkerOpts) ([]Obs, error) {
 		culprit := rest[len(got)]
 		ob := Obs{ID: culprit.ID}
 		if hang {
-			ob.Hang = true
+			// a verdict of non-termination must not depend on how busy the machine is: the call is repeated
+			// alone in a fresh worker with four times the patience; only if it stalls again it is a hang
+			wo2 := wo
+			wo2.Stall = 4 * wo.Stall
+			if got2, died2, _, _, err2 := runWorkerOnce([]Op{culprit}, wo2); err2 == nil && !died2 && len(got2) == 1 {
+				ob = got2[0]
+			} else {
+				ob.Hang = true
+			}
 		} else {
 			ob.Crash = crashTail
 			if ob.Crash == "" {
